@@ -18,6 +18,15 @@
     src/Pointer.c     Box_New / Box_Assign / Box_Ref / Box_Del: the destructor of a Box `del`s what the Box points to, so
                       releases nest: a destructor running inside `del`, `del_raw`, a sweep or the teardown deletes another
                       object, which may itself be waiting in the same sweep (chains, rings, a Box that owns itself)
+                      A Box on the stack (`$(Box, x)`, the documented idiom) holds the pointer as it is; `destruct` of it
+                      is Box_Del (the pointee is deleted through the collector, the Box cleared); `del_raw` of it runs
+                      Box_Del and only then reaches `dealloc`, which refuses the Box (KF-C19-delraw-embedded)
+    src/Tuple.c Array.c   objects embedded in containers may own a malloc block themselves: a Tuple element its `items`,
+                      an Array element its backing store, a String element its characters (`Scalar.tup / .arr / .str`).
+                      Tuple_Del / String_Del let class `data` through, Array_Del has no guard: `destruct` / `del_raw` of
+                      such an element frees that block and leaves the pointer dangling (`.tupFreed / .arrFreed / .strFreed`)
+    src/Alloc.c       del_by: `dealloc(destruct(self))`; whether a class test comes first is read from the source
+                      (`Config.delRawClassFirst`: not in the code that exists; the repair proposed for KF-C19-delraw-embedded)
     src/Iter.c        what Range / Slice / Zip / Filter / Map hand out
 
   Everything a source change can flip is a parameter (`Config`) whose current value `Config.current` is computed from
